@@ -195,6 +195,7 @@ fn qnames() -> Vec<QName> {
     v.push(QName { what: "pointer c002 (into the flags)", wire: vec![0xc0, 0x02] });
     v.push(QName { what: "pointer c004 (into QDCOUNT)", wire: vec![0xc0, 0x04] });
     v.push(QName { what: "pointer c005 (into QDCOUNT low)", wire: vec![0xc0, 0x05] });
+    v.push(QName { what: "pointer c007 (into ANCOUNT low)", wire: vec![0xc0, 0x07] });
     v.push(QName { what: "z + pointer c004", wire: vec![1, b'z', 0xc0, 0x04] });
     v.push(QName { what: "x.a.z + pointer c006", wire: vec![1, b'x', 1, b'a', 1, b'z', 0xc0, 0x06] });
     v.push(QName { what: "label with a zero octet under z.", wire: vec![1, 0, 1, b'z', 0] });
@@ -612,7 +613,7 @@ fn judge(cfg: &fd::Config, src: SocketAddr, req: &[u8], out: &[Vec<u8>], l: &mut
         // the records behind an undecodable question cannot be located, so the extended rcode in
         // the OPT is out of reach: only the header nibble is known
         let low = v.rcode & 0xf;
-        if judge_question && low != fd::FORMERR && low != fd::NOTIMP {
+        if judge_question && low != fd::FORMERR {
             let q = e.question.as_ref().unwrap();
             return fnd(
                 if q.has_pointer { "question-echo:pointer-into-header" } else { "question-echo:undecodable" },
@@ -654,13 +655,16 @@ fn judge(cfg: &fd::Config, src: SocketAddr, req: &[u8], out: &[Vec<u8>], l: &mut
     if e.opcode != 0 && e.opcode != 5 && v.qd == 0 {
         l.outcome("obs:unsupported-opcode-response-without-question");
     }
+    if (r[2] >> 3) & 0xf != e.opcode {
+        l.outcome("obs:response-opcode-differs-from-request");
+    }
     let hick = Message::from_vec(r);
     if hick.is_err() {
         l.outcome("obs:hickory-cannot-decode-response");
     }
 
     // question echo: queries and updates that were not turned away with FORMERR / NOTIMP
-    if e.query_or_update && v.rcode != fd::FORMERR && v.rcode != fd::NOTIMP {
+    if e.query_or_update && v.rcode != fd::FORMERR {
         if let Some(q) = &e.question {
             let same = match &v.question {
                 Ok(rq) => v.qd == 1 && rq.name == q.name && rq.qtype == q.qtype && rq.qclass == q.qclass,
@@ -1042,9 +1046,9 @@ fn main() {
 
     // ---- F1: dispatch product, every opcode ------------------------------------------------
     {
-        let qtypes: [u16; 3] = [16, 1, 6];
-        let edns: [usize; 4] = [0, 1, 2, 3];
-        let od = Odometer::new(&[16, 4, 3, nq, 2, nacl, nshape]);
+        let qtypes: Vec<u16> = if thorough { vec![16, 1, 6, 2, 28, 255, 252, 41, 65535] } else { vec![16, 1, 6] };
+        let edns: Vec<usize> = if thorough { (0..EDNS_NAMES.len()).collect() } else { vec![0, 1, 2, 3] };
+        let od = Odometer::new(&[16, edns.len() as u64, qtypes.len() as u64, nq, 2, nacl, nshape]);
         let n = od.space();
         ctx.set("F1_dispatch_cases", json!(n));
         ctx.par_run_init(
@@ -1101,10 +1105,14 @@ fn main() {
     {
         let ids: [u16; 3] = [0, 1, 0xffff];
         let places = place_list(&[1, 5], &[0, 1], &[false]);
-        let names: Vec<usize> = ["a.z.", "x.o.", "pointer c002 (into the flags)", "z + pointer c004"]
-            .iter()
-            .map(|w| world.qn.iter().position(|q| q.what == *w).unwrap())
-            .collect();
+        let names: Vec<usize> = if thorough {
+            (0..world.qn.len()).collect()
+        } else {
+            ["a.z.", "x.o.", "pointer c002 (into the flags)", "z + pointer c004"]
+                .iter()
+                .map(|w| world.qn.iter().position(|q| q.what == *w).unwrap())
+                .collect()
+        };
         let edns: [usize; 3] = [0, 1, 2];
         let od = Odometer::new(&[3, 2, 16, 8, 2, N_COUNT_VARIANTS, names.len() as u64, 3, places.len() as u64]);
         let n = od.space();
